@@ -116,6 +116,9 @@ impl Rule {
         if flags.memoize && !settings.derives.contains(&"Clone".into()) {
             bail!("@memoize can only be used if 'Clone' is in the derives set");
         }
+        if flags.left_recursive && !settings.derives.contains(&"Clone".into()) {
+            bail!("@leftrec can only be used if 'Clone' is in the derives set");
+        }
         Ok(())
     }
 
